@@ -229,10 +229,15 @@ PROPS = {
         "design_ref": "DESIGN.md §4.3",
     },
     "C17": {
-        "units": [engine_unit("harness/engine/c17_inval.rs", "harness/engine/c17_inval_rows.rs", "harness/engine/c17_anti.rs",
+        # two Kani sessions: compiled together with the ~270 may_invalidate harnesses of the thorough
+        # tier, the AntiUnifier harnesses show spurious pointer failures inside ena's Vec::push
+        # (non-reproducing, DESIGN.md B19); on their own they verify
+        "units": [engine_unit("harness/engine/c17_inval.rs", "harness/engine/c17_inval_rows.rs",
                               modules={"harness/engine/c17_inval.rs": "slg::verif_c17_inval",
-                                       "harness/engine/c17_inval_rows.rs": "slg::verif_c17_inval",
-                                       "harness/engine/c17_anti.rs": "slg::aggregate::verif_c17_anti"})],
+                                       "harness/engine/c17_inval_rows.rs": "slg::verif_c17_inval"}),
+                  dict(engine_unit("harness/engine/c17_anti.rs",
+                                   modules={"harness/engine/c17_anti.rs": "slg::aggregate::verif_c17_anti"}),
+                       name="engine-anti")],
         "claim": "(1) AntiUnifier::aggregate_tys / aggregate_lifetimes / aggregate_consts / aggregate_name_and_substs "
                  "(chalk-engine/src/slg/aggregate.rs): for 30 classes (8 list-carrying / pointer constructors with agreeing or "
                  "differing ids and children, references, arrays with agreeing lengths (differing lengths: withdrawn, spurious CBMC pointer failures in ena's Vec::push), leaf pairs) both inputs "
